@@ -670,9 +670,9 @@ fn verif_lookup_entries(data: &StreamData, ids: &Vec<StreamId>) -> (r: Vec<Strea
 //@@   rewrite RXPR "group .get_pending_range(None, None, usize::MAX, Some(consumer_name)) .into_iter() .map(|p| p.id) .filter(|id| *id > after_id) .collect()" "verif_history_ids(&*group, consumer_name, after_id)"
 //@@   rewrite RXPR "ids.sort()" "verif_sort_ids(&mut ids)"
 //@@   rewrite RXPR "ids .iter() .filter_map(|id| { data.entries.binary_search_by(|e| e.id.cmp(id)) .ok() .map(|idx| data.entries[idx].clone()) }) .collect()" "verif_lookup_entries(data, &ids)"
-//@@   rewrite RT "entries.clone()" "verif_clone_entries(&entries)"
-//@@   rewrite RT "entries.last()" "verif_last(&entries)"
-//@@   at "if !noack && !entries.is_empty()"
+//@@   rewrite? RT "entries.clone()" "verif_clone_entries(&entries)"
+//@@   rewrite? RT "entries.last()" "verif_last(&entries)"
+//@@   after "let entries = data.range_after"
 //@@|     let ghost es = data.entries@; let ghost cur = old(group).last_delivered_id;
 //@@|     proof {
 //@@|         let s = choose|s: int| #[trigger] range_after_is(es, cur, maxc_of(count, es.len()), entries@, s);
@@ -706,6 +706,37 @@ fn read_group(data: &StreamData, group: &mut ConsumerGroup, consumer_name: &str,
         }),
 //@@ body
 //@@ end
+
+// ---- C16 "delivered ... to exactly one consumer, in ID order", as lemmas over read_group's contract (range_after_is + the cursor
+// moving to the last entry returned). es1 / es2 are the stream at the first and at the second read; any number of entries may
+// have been added or deleted in between as long as the stream stays sorted (C15).
+/// whatever happened to the stream in between, the second read returns only ids greater than every id of the first read:
+/// no entry is delivered twice, and deliveries are in id order across reads
+pub proof fn lemma_reads_never_overlap(es1: Seq<StreamEntry>, es2: Seq<StreamEntry>, cur: StreamId, n1: int, r1: Seq<StreamEntry>, s1: int, n2: int, r2: Seq<StreamEntry>, s2: int)
+    requires sorted_ids(es1), sorted_ids(es2), r1.len() > 0,
+        range_after_is(es1, cur, n1, r1, s1),
+        range_after_is(es2, r1[r1.len() - 1].id, n2, r2, s2),
+    ensures forall|i: int, j: int| 0 <= i < r1.len() && 0 <= j < r2.len() ==> (#[trigger] r1[i]).id.packed < (#[trigger] r2[j]).id.packed,
+        forall|i: int| 0 <= i < r1.len() ==> cur.packed < (#[trigger] r1[i]).id.packed,
+{
+    assert forall|i: int, j: int| 0 <= i < r1.len() && 0 <= j < r2.len() implies (#[trigger] r1[i]).id.packed < (#[trigger] r2[j]).id.packed by {
+        assert(r1[i] == es1[s1 + i]); assert(r1[r1.len() - 1] == es1[s1 + r1.len() - 1]); assert(r2[j] == es2[s2 + j]);
+    }
+    assert forall|i: int| 0 <= i < r1.len() implies cur.packed < (#[trigger] r1[i]).id.packed by { assert(r1[i] == es1[s1 + i]); }
+}
+/// with entries only appended in between, the second read starts exactly where the first one stopped: nothing after the
+/// group's start position is skipped
+pub proof fn lemma_reads_leave_no_gap(es1: Seq<StreamEntry>, es2: Seq<StreamEntry>, cur: StreamId, n1: int, r1: Seq<StreamEntry>, s1: int, n2: int, r2: Seq<StreamEntry>, s2: int)
+    requires sorted_ids(es2), es1.len() <= es2.len(), es1 =~= es2.subrange(0, es1.len() as int), r1.len() > 0,
+        range_after_is(es1, cur, n1, r1, s1),
+        range_after_is(es2, r1[r1.len() - 1].id, n2, r2, s2),
+    ensures s2 == s1 + r1.len(),
+{
+    let k = s1 + r1.len() - 1;
+    assert(r1[r1.len() - 1] == es1[k]); assert(es1[k] == es2[k]);
+    if k >= s2 { assert(es2[k].id.packed > r1[r1.len() - 1].id.packed); }
+    if k + 1 < s2 { assert(es2[k + 1].id.packed <= r1[r1.len() - 1].id.packed); assert(es2[k].id.packed < es2[k + 1].id.packed); }
+}
 
 } // verus!
 fn main() {}
